@@ -64,8 +64,11 @@ def parse_stats(out: str):
     return {"generated": int(m.group(1)), "distinct": int(m.group(2))}
 
 
+SPEC_ERRORS: list[dict] = []     # traces on which TLC itself failed (filled by validate_batch)
+
+
 def validate_batch(spec: str, cfg: str, clauses: list[str], traces: list[list[dict]], scratch: str, tag: str,
-                   timeout=1800):
+                   timeout=1800, _depth=0):
     """Validates one batch of traces in one JVM.  Returns dict tid(1-based) -> (clause, line) and raw output."""
     if not traces:
         return {}, "", {"generated": 0, "distinct": 0}
@@ -80,8 +83,21 @@ def validate_batch(spec: str, cfg: str, clauses: list[str], traces: list[list[di
             raise MachineryError(f"two verdicts for trace {tid}")
         verdicts[tid] = (m.group(2), int(m.group(3)))
     if len(verdicts) != len(traces) or rc != 0:
-        raise MachineryError(
-            f"TLC produced {len(verdicts)} verdicts for {len(traces)} traces (rc={rc}) in {path}:\n{out[-4000:]}")
+        if len(traces) > 1 and _depth < 12:
+            # an evaluation error of the specification on ONE trace aborts the JVM: isolate it by bisection so that the
+            # other traces are still judged; the culprit is reported as `spec_error` (never as a verdict about the code)
+            mid = len(traces) // 2
+            v1, o1, s1 = validate_batch(spec, cfg, clauses, traces[:mid], scratch, tag + "a", timeout, _depth + 1)
+            v2, o2, s2 = validate_batch(spec, cfg, clauses, traces[mid:], scratch, tag + "b", timeout, _depth + 1)
+            v = dict(v1)
+            v.update({k + mid: x for k, x in v2.items()})
+            # trace ids in the second half's output lines (VERDICT / TAINT / EXPECTED-*) are renumbered
+            o2 = re.sub(r'<<"([A-Z-]+)", (\d+),', lambda m: f'<<"{m.group(1)}", {int(m.group(2)) + mid},', o2)
+            return v, o1 + o2, {"generated": s1["generated"] + s2["generated"], "distinct": s1["distinct"] + s2["distinct"]}
+        i = out.find("Error:")
+        head = out[i:i + 1500] if i >= 0 else out[-1500:]
+        SPEC_ERRORS.append({"trace": traces[0], "tlc": head})
+        return {1: ("spec_error", 0)}, out, {"generated": 0, "distinct": 0}
     return verdicts, out, parse_stats(out) or {"generated": 0, "distinct": 0}
 
 
